@@ -91,7 +91,8 @@ void run_widths(std::integer_sequence<uintptr_t, Ws...>, int only_w, int shard, 
 
 void marked_ptr_test() {
   const int full_limit = (int)opt("full", 12), only_w = (int)opt("w", -1), shards = (int)opt("shards", 16);
-  const int shard = choose(shards);
+  // a single DATA choice has at most 255 alternatives: more shards are enumerated as two choices
+  const int shard = shards <= 128 ? choose(shards) : choose(16) * (shards / 16) + choose(shards / 16);
   const int u = choose(3);
   auto seq = std::make_integer_sequence<uintptr_t, 33>{};
   if (u == 0) run_widths<0>(seq, only_w, shard, shards, full_limit);
